@@ -108,6 +108,7 @@ def _c20(prop, tier):
     grid = [(40, t, m, 50, True) for t in (0, 6, 18) for m in (0, 1, 3)]
     grid += [(0, t, m, 2, False) for t in (3, 8) for m in (1, 2, 4, 16)]          # doubling-and-cap region, model only
     grid += [(1000, 5, 3, 2, True)]                                               # a cap above the initial 2 s delay: first wait min(4 s, 3 s)
+    grid += [(40, 40, 1, 50, True)]                                               # dozens of failures in one call (more than a 64-bit delay could be doubled)
     if tier == "thorough":
         grid += [(1000, 6, 5, 2, True), (1000, 3, 1, 2, True), (40, 30, 2, 50, True), (40, 12, 6, 50, True)]
     states = gen = 0
@@ -403,11 +404,11 @@ HIST_DIMS_QUICK = ["mut", "qsig", "bind", "qeSigner", "leafRole", "leafPki", "po
 
 def _hist_cfg(tier, dims=None):
     if dims is None and tier == "thorough":
-        return ('CONSTANTS\n  K = 0\n  Focus = {}\n  OptSet = "levels"\n  NowVals = {"set"}\n  HistDims <- DimNames\n'
+        return ('CONSTANTS\n  K = 0\n  Focus = {}\n  OptSet = "levels"\n  NowVals = {"set"}\n  HistDims <- DimNames\n  HistQuick = FALSE\n'
                 "SPECIFICATION HSpec\nINVARIANTS StoreIsCurrent HistoryFree ExportCase\nCHECK_DEADLOCK FALSE\n")
     dims = "{" + ", ".join('"%s"' % d for d in (dims or HIST_DIMS_QUICK)) + "}"
-    return ('CONSTANTS\n  K = 0\n  Focus = {}\n  OptSet = "levels"\n  NowVals = {"set"}\n  HistDims = %s\n'
-            "SPECIFICATION HSpec\nINVARIANTS StoreIsCurrent HistoryFree ExportCase\nCHECK_DEADLOCK FALSE\n" % dims)
+    return ('CONSTANTS\n  K = 0\n  Focus = {}\n  OptSet = "levels"\n  NowVals = {"set"}\n  HistDims = %s\n  HistQuick = %s\n'
+            "SPECIFICATION HSpec\nINVARIANTS StoreIsCurrent HistoryFree ExportCase\nCHECK_DEADLOCK FALSE\n" % (dims, "FALSE" if tier == "thorough" else "TRUE"))
 
 
 HIST_TRACE_CONSTS = '  K = 0\n  Focus = {}\n  OptSet = "levels"\n  NowVals = {"set"}\n  Prop = "HIST"\n'
@@ -419,18 +420,36 @@ def _key_hist(call, evs):
     b = verifyfam.baseline()
     dev = ",".join("%s=%s" % (d, f[d]) for d in sorted(f) if b.get(d) != f[d]) or "baseline"
     if i.get("timed"):
-        return "history:wall-clock-time-set-reused-after-expiry|shared=%s" % int(bool(i.get("shared")))
-    steps = ">".join("%s@%d%d" % (s["wid"], int(s["gc"]), int(s["cr"])) for s in i.get("hist", []))
+        return "history:wall-clock-time-set-reused-after-expiry%s|shared=%s" % ("-first-call-fails-fetching" if i.get("firstFails") else "", int(bool(i.get("shared"))))
+    steps = (">levels>" if i.get("mid") == "levels" else ">").join("%s@%d%d%s" % (s["wid"], int(s["gc"]), int(s["cr"]), "r" if s.get("entry") == "raw" else "") for s in i.get("hist", []))
     return "history:%s|%s|shared=%s" % (dev, steps, int(bool(i.get("shared"))))
 
 
+def _hist_quick(cases):
+    """Quick tier: of TLC's histories keep every message/message history (the reporting call in between only before a call that asks for
+    revocation checking) and, of those that mix the two entry points, the ones that keep the option level; thorough keeps all."""
+    out = []
+    for c in cases:
+        a, b = c["hist"]
+        if a.get("entry", "msg") == "msg" and b.get("entry", "msg") == "msg":
+            if c.get("mid", "none") == "none" or b["cr"]:
+                out.append(c)
+        elif c.get("mid", "none") == "none" and a["gc"] == b["gc"] and a["cr"] == b["cr"]:
+            out.append(c)
+    return out
+
+
 def _hist_cases(cases, tier):
+    if tier != "thorough":
+        cases = _hist_quick(cases)
     # one timed history beyond TLC's list: wall-clock time set, the leaf expires between the two calls (shared and fresh Options)
-    return cases + [dict(timed=True, shared=True, fault={}, hist=[]), dict(timed=True, shared=False, fault={}, hist=[])]
+    # (and the same with a first call that fails while fetching collateral: nothing of it may stay behind either)
+    return cases + [dict(timed=True, shared=True, fault={}, hist=[]), dict(timed=True, shared=False, fault={}, hist=[]),
+                    dict(timed=True, shared=True, firstFails=True, fault={}, hist=[]), dict(timed=True, shared=False, firstFails=True, fault={}, hist=[])]
 
 
 def _hist_run(prop, tier, dims=None):
-    return smallfam.run(prop, tier, part=True, case_fn=_hist_cases if dims is None else None, mc_module="VerifyHistory_MC", mc_cfg=_hist_cfg(tier, dims), driver="history", trace_module="TdxVerify_Judge", trace_spec="JSpec",
+    return smallfam.run(prop, tier, part=True, case_fn=_hist_cases if (dims is None or prop == "C06") else (lambda cases, t: cases if t == "thorough" else _hist_quick(cases)), mc_module="VerifyHistory_MC", mc_cfg=_hist_cfg(tier, dims), driver="history", trace_module="TdxVerify_Judge", trace_spec="JSpec",
                         trace_consts=HIST_TRACE_CONSTS, key_fn=_key_hist, required_actions=("Call",), max_events=24000,
                         assumptions=["worlds of one history share a seed: named keys, certificates and deterministic signatures coincide byte for byte, so a cache or left-over state keyed on shared material would be hit"],
                         rule="every history (first call on the honest twin or on another honest platform, second call on any of the three worlds, all option levels, shared or fresh Options) is run in one process; every call is judged by the single-call properties")
@@ -438,7 +457,7 @@ def _hist_run(prop, tier, dims=None):
 
 # C01..C07 are statements about every call, not about the first call of a process: each is also decided over two-call
 # histories whose faulty world deviates in that property's own dimensions.
-HIST_FOCUS_EXTRA = {"C01": ["mut"]}
+HIST_FOCUS_EXTRA = {"C01": ["mut", "msgWide"]}
 
 
 def _vf_hist(prop, tier):
